@@ -17,7 +17,7 @@ from .util import enc_model, settle
 from .c18 import _merge_canaries
 
 PROP = "C15"
-SHAPES_QUICK = [((1, 1), None), ((2, 1), [2, 1])]
+SHAPES_QUICK = [((1, 1), None), ((2, 1), [2, 1]), ((5, 2), [1, 2])]
 SHAPES_THOROUGH = SHAPES_QUICK + [((1, 1, 1), [1, 1, 2]), ((1, 2), [1, 1]), ((2, 2, 1), None)]
 
 
